@@ -580,7 +580,7 @@ func handleCommand(cmd *datastore.Request) (reply *datastore.Response, err error
 			}
 			config := cmd.Settings()
 			go func() {
-				if err = datastore.MigrateInstance(uuid, dvid.InstanceName(source), srcStore, dstStore, config, nil); err != nil {
+				if err := datastore.MigrateInstance(uuid, dvid.InstanceName(source), srcStore, dstStore, config, nil); err != nil {
 					dvid.Errorf("migrate error: %v\n", err)
 				}
 			}()
@@ -590,7 +590,7 @@ func handleCommand(cmd *datastore.Request) (reply *datastore.Response, err error
 			var configFName string
 			cmd.CommandArgs(3, &configFName)
 			go func() {
-				if err = datastore.MigrateBatch(uuid, configFName); err != nil {
+				if err := datastore.MigrateBatch(uuid, configFName); err != nil {
 					dvid.Errorf("migrate error: %v\n", err)
 				}
 			}()
@@ -601,7 +601,7 @@ func handleCommand(cmd *datastore.Request) (reply *datastore.Response, err error
 			cmd.CommandArgs(3, &source, &target)
 			config := cmd.Settings()
 			go func() {
-				if err = datastore.CopyInstance(uuid, dvid.InstanceName(source), dvid.InstanceName(target), config); err != nil {
+				if err := datastore.CopyInstance(uuid, dvid.InstanceName(source), dvid.InstanceName(target), config); err != nil {
 					dvid.Errorf("copy error: %v\n", err)
 				}
 			}()
@@ -621,7 +621,7 @@ func handleCommand(cmd *datastore.Request) (reply *datastore.Response, err error
 			}
 			go func() {
 				SetReadOnly(true)
-				if err = datastore.TransferData(uuid, srcStore, dstStore, configFName); err != nil {
+				if err := datastore.TransferData(uuid, srcStore, dstStore, configFName); err != nil {
 					dvid.Errorf("transfer-data error: %v\n", err)
 				}
 				SetReadOnly(false)
@@ -657,7 +657,7 @@ func handleCommand(cmd *datastore.Request) (reply *datastore.Response, err error
 			cmd.CommandArgs(3, &target)
 			config := cmd.Settings()
 			go func() {
-				if err = datastore.PushRepo(uuid, target, config); err != nil {
+				if err := datastore.PushRepo(uuid, target, config); err != nil {
 					dvid.Errorf("push error: %v\n", err)
 				}
 			}()
